@@ -156,7 +156,21 @@ def run_case(desc):
     elif op == "copy":
         results.append(x.copy())
     elif op == "full_like":
-        results.append(fd.FlodymArray.full_like(x, 3.0))
+        if desc["k"] % 3 == 0 or not xl:
+            results.append(fd.FlodymArray.full_like(x, 3.0))
+        else:
+            # the fill value may be an ndarray of the full shape (of the result's dtype or another one): it is an input
+            fill = np.arange(float(x.values.size)).reshape(x.values.shape) + 0.5
+            if desc["k"] % 3 == 2:
+                fill = fill.astype(x.values.dtype)
+            keep_fill = fill.copy()
+            r_ = fd.FlodymArray.full_like(x, fill)
+            results.append(r_)
+            require(not np.shares_memory(r_.values, fill), "result-values-alias-input", "full_like: the result shares memory with the ndarray given as fill value")
+            r_.values[...] = SENT
+            require(np.array_equal(fill, keep_fill), "result-values-alias-input", "full_like: writing into the result changed the ndarray given as fill value")
+            r_.values[...] = keep_fill
+            classes.append("full_like:ndarray-fill")
     elif op == "full":
         results.append(fd.FlodymArray.full(ds, 3.0))
     elif op == "from_superset":
